@@ -295,6 +295,13 @@ class WebSocket:
         # NOTE(kgriffs): Only do this after we validate the code, to avoid
         #   masking errors.
         if self.closed:
+            if self._state != _WebSocketState.CLOSED:
+                # NOTE: The client has already disconnected (as noticed by
+                #   the buffered receiver); make sure that any further
+                #   operation reports that instead of tripping over the
+                #   stopped receiver.
+                self._state = _WebSocketState.CLOSED
+                self._close_code = self._buffered_receiver.client_disconnected_code
             return
 
         response = {'type': EventType.WS_CLOSE, 'code': code}
